@@ -127,10 +127,26 @@ impl SymbolsExportsModule {
         name: &String,
         files: &mut R,
     ) -> Option<Rc<SymbolExport>> {
+        self.get_value_visiting(name, files, &mut vec![])
+    }
+
+    // `export * from` may form cycles between modules: a module is looked at once per lookup
+    fn get_value_visiting<R: FileManager>(
+        &self,
+        name: &String,
+        files: &mut R,
+        visited: &mut Vec<BffFileName>,
+    ) -> Option<Rc<SymbolExport>> {
         let known = self.named_values.get(name).cloned().or_else(|| {
             for it in &self.extends {
+                if visited.contains(it) {
+                    continue;
+                }
+                visited.push(it.clone());
                 let file = files.get_or_fetch_file(it)?;
-                let res = file.symbol_exports.get_value(name, files);
+                let res = file
+                    .symbol_exports
+                    .get_value_visiting(name, files, visited);
                 if let Some(it) = res {
                     return Some(it.clone());
                 }
@@ -162,10 +178,23 @@ impl SymbolsExportsModule {
         name: &String,
         files: &mut R,
     ) -> Option<Rc<SymbolExport>> {
+        self.get_type_visiting(name, files, &mut vec![])
+    }
+
+    fn get_type_visiting<R: FileManager>(
+        &self,
+        name: &String,
+        files: &mut R,
+        visited: &mut Vec<BffFileName>,
+    ) -> Option<Rc<SymbolExport>> {
         let known = self.named_types.get(name).cloned().or_else(|| {
             for it in &self.extends {
+                if visited.contains(it) {
+                    continue;
+                }
+                visited.push(it.clone());
                 let file = files.get_or_fetch_file(it)?;
-                let res = file.symbol_exports.get_type(name, files);
+                let res = file.symbol_exports.get_type_visiting(name, files, visited);
                 if let Some(it) = res {
                     return Some(it.clone());
                 }
